@@ -86,7 +86,7 @@ def plan(tier, seed):
 
 
 def floors(tier):
-    return {"distinct_nontrivial": 500, "cls:target:Bd": 200, "cls:target:Hd": 200, "cls:target:Hd2": 100,
+    return {"distinct_nontrivial": 500, "cls:scale:mixed_domain_of_70_to_130_members": 200, "cls:target:Bd": 200, "cls:target:Hd": 200, "cls:target:Hd2": 100,
             "cls:target:Cn": 300, "cls:positional": 300, "cls:value:const": 500, "cls:value:var": 100,
             "cls:value:term": 150, "cls:container:tuple": 100, "cls:container:gen": 100, "cls:container:single": 50,
             "cls:decl:let": 100, "cls:decl:from": 500, "cls:decl:an_term": 100, "cls:type_filter_needed": 800,
@@ -99,8 +99,18 @@ def gen_case(rng):
     for _ in range(rng.randint(3, 6)):
         bodies.append([rng.choice(["Bd", "Bd", "Hd", "Hd2"]), rng.choice(VALS["name"]), rng.choice(VALS["size"]), rng.choice(VALS["kind"]),
                        rng.choice(VALS["tag"])])
+    big = rng.random() < 0.04
+    if big:
+        # SIZE: a mixed-type domain of 70-130 members in long same-type runs (40+ members of one type, then the others), so that a
+        # batch-wise or bounded treatment of the supplied domain shows; dozens of members satisfy the field constraints
+        bodies = []
+        for t in rng.sample(["Bd", "Hd", "Hd2"], 3):
+            for _ in range(rng.randint(20, 45)):
+                bodies.append([t, rng.choice(VALS["name"][:2]), rng.choice(VALS["size"][:2]), rng.choice(VALS["kind"][:2]), rng.choice(VALS["tag"])])
     conns = [[rng.randrange(len(bodies)), rng.randrange(len(bodies)), rng.choice(VALS["w"])] for _ in range(rng.randint(2, 5))]
     target = rng.choice(["Bd", "Hd", "Hd2", "Cn", "Cn"])
+    if big:
+        target = rng.choice(["Bd", "Hd", "Hd2"])
     fields = []
     names = FIELDS[target]
     chosen = [f for f in names if rng.random() < 0.5]
@@ -130,7 +140,7 @@ def gen_case(rng):
         decl = rng.choice(["let", "from", "from"])
     elif rng.random() < 0.25:
         decl = "an_term"
-    return {"bodies": bodies, "conns": conns, "target": target, "fields": fields, "positional": positional_prefix,
+    return {"bodies": bodies, "conns": conns, "target": target, "fields": fields, "positional": positional_prefix, "big": big,
             "no_instance_in_domain": rng.random() < 0.08,
             "requery_after_mutation": rng.choice([None, None, None, "append", "remove", "replace"]),
             "extras": extras, "container": rng.choice(["list", "list", "tuple", "gen", "single"]), "decl": decl}
@@ -312,6 +322,8 @@ def check_case(case, ctx):
     exp = expected(case, bodies, dom)
     T = CLS[case["target"]]
     ctx.cls("cls:target:" + case["target"])
+    if case.get("big"):
+        ctx.cls("cls:scale:mixed_domain_of_70_to_130_members")
     ctx.cls("cls:container:" + case["container"])
     ctx.cls("cls:decl:" + case["decl"])
     if case["positional"]:
